@@ -4,13 +4,20 @@
           labels of the byte arrays holding sofa data in view order (ta, from the scenario), the
           labels each traversal visits (computed by the harness with an identity-based traversal of its own; the id-less ones
           ordered as the implementation was seen to visit them), the label lists behind the canonical queries (from the
-          scenario: members per view, members of the queried subtree per view), the query answers before the first
-          operation, the operations, and what was observed after each one (compactly):
+          scenario: members per view, members of the queried subtree per view), for every handle (Cas object: the ones
+          the CAS was built through and one more per view from get_view) the view it points at (from the scenario), the
+          answers of the canonical queries through every handle before the first operation, the number of operations in
+          front of the edit (the scenario may replace document text / primitive feature values between two operations:
+          nothing the model knows about changes, but the bytes do, so digest classes are counted per segment; = the
+          number of operations when there is no edit), the operations, each with the handle it is called through, and
+          what was observed after each one (compactly):
             ob_delta   labels whose id changed in this step, with the new id
             ob_doc     labels of the structures listed in the written document, in document order (DSame j = the same
                        listing as at step j)
             ob_class   digest class of the document: index of the first step with the same operation and the same bytes
-            ob_queries sorted ids the canonical queries returned (None = the same as after the previous step)
+            ob_queries sorted ids the canonical queries (select_all, select(T)) returned through every handle (None = the
+                       same as after the previous step)
+            ob_cur     the view every handle points at (None = the same as after the previous step)
           The model must predict all of it: which ids are assigned to whom, the listing order, that documents repeat.
    CEmit: one CAS with all ids present.  The set-valued inputs in an order chosen by the harness (not the emitted one), and
           the orders observed in the XMI document, the JSON documents (FULL/MINIMAL) and type-system XML documents. *)
@@ -19,7 +26,7 @@ Open Scope Z_scope.
 
 Inductive docobs := DNone | DNew (l : list Z) | DSame (j : Z).
 Record stepobs := mkObs {
-  ob_delta : list (Z * Z); ob_doc : docobs; ob_class : Z; ob_queries : option (list (list Z)) }.
+  ob_delta : list (Z * Z); ob_doc : docobs; ob_class : Z; ob_queries : option (list (list Z)); ob_cur : option (list Z) }.
 
 Record emitobs := mkEmit {
   em_found_x : list fsitem;             (* what XMI writes separately, in label order *)
@@ -35,8 +42,8 @@ Record emitobs := mkEmit {
   em_ts : list (list string * list string * list string) }.  (* (redeclared set, type-name set, observed name order) *)
 
 Inductive case :=
-| CSeq (ids : list Z) (next : Z) (ta tx tj : list Z) (queries : list (list Z)) (q0 : list (list Z)) (ops : list op)
-       (obs : list stepobs)
+| CSeq (ids : list Z) (next : Z) (ta tx tj : list Z) (cur : list Z) (qall qsub : list (list Z)) (q0 : list (list Z))
+       (cut : Z) (hops : list (Z * op)) (obs : list stepobs)
 | CEmit (e : emitobs).
 
 Definition optz_eqb (a b : option Z) : bool :=
@@ -71,19 +78,29 @@ Fixpoint first_same (o : op) (d : list (N * Z)) (i : Z) (hist : list (op * optio
   | (o', d') :: r =>
       if op_eqb o o' && doc_eqb (Some d) d' then Some i else first_same o d (i + 1) r
   end.
-Fixpoint classes (i : Z) (seen : list (op * option (list (N * Z)))) (todo : list (op * option (list (N * Z)))) : list Z :=
+Fixpoint classes (base i : Z) (seen : list (op * option (list (N * Z)))) (todo : list (op * option (list (N * Z)))) : list Z :=
   match todo with
   | [] => []
-  | (o, None) :: r => (-1) :: classes (i + 1) (seen ++ [(o, None)]) r
+  | (o, None) :: r => (-1) :: classes base (i + 1) (seen ++ [(o, None)]) r
   | (o, Some d) :: r =>
-      (match first_same o d 0 seen with Some j => j | None => i end) :: classes (i + 1) (seen ++ [(o, Some d)]) r
+      (match first_same o d base seen with Some j => j | None => i end) :: classes base (i + 1) (seen ++ [(o, Some d)]) r
   end.
+(* the documents written before and after the edit are counted separately (seen = the steps from index base on) *)
+Definition classes_cut (cut : nat) (l : list (op * option (list (N * Z)))) : list Z :=
+  classes 0 0 [] (firstn cut l) ++ classes (Z.of_nat cut) (Z.of_nat cut) [] (skipn cut l).
 
-Fixpoint check_steps (queries : list (list N)) (r : list (state * option (list (N * Z)))) (obs : list stepobs)
-                     (ids : list (option Z)) (docs : list (list N)) (lastq : list (list Z)) : bool :=
+(* the canonical queries through every handle: select_all() per handle, then select(T) per handle *)
+Fixpoint upto (n : nat) : list N := match n with O => [] | S k => upto k ++ [N.of_nat k] end.
+Definition hqueries (qall qsub : list (list N)) (hs : hstate) : list (list Z) :=
+  let hd := upto (List.length (hs_cur hs)) in map (hquery qall hs) hd ++ map (hquery qsub hs) hd.
+
+Fixpoint check_steps (qall qsub : list (list N)) (r : list (hstate * option (list (N * Z)))) (obs : list stepobs)
+                     (ids : list (option Z)) (docs : list (list N)) (lastq : list (list Z)) (lastc : list Z) : bool :=
   match r, obs with
   | [], [] => true
-  | (s, d) :: r', o :: obs' =>
+  | (hs, d) :: r', o :: obs' =>
+      let s := hs_store hs in
+      let c := match ob_cur o with Some c => c | None => lastc end in
       let ids' := apply_delta (ob_delta o) ids in
       let od := match ob_doc o with
                 | DNone => None
@@ -97,18 +114,20 @@ Fixpoint check_steps (queries : list (list N)) (r : list (state * option (list (
        | Some d, Some l => list_eqb N.eqb (map fst d) l
        | _, _ => false
        end) &&
-      list_eqb zs_eqb (map (query s) queries) q &&
-      check_steps queries r' obs' ids' (docs ++ [match od with Some l => l | None => [] end]) q
+      list_eqb zs_eqb (hqueries qall qsub hs) q &&
+      list_eqb N.eqb (hs_cur hs) (nl c) &&
+      check_steps qall qsub r' obs' ids' (docs ++ [match od with Some l => l | None => [] end]) q c
   | _, _ => false
   end.
 
-Definition check_seq ids next ta tx tj queries q0 ops (obs : list stepobs) : bool :=
-  let s0 := init_state ids next in
-  let qs := map nl queries in
-  let r := run (nl ta) (nl tx) (nl tj) ops s0 in
-  list_eqb zs_eqb (map (query s0) qs) q0 &&
-  check_steps qs r obs (map e_id (st_entries s0)) [] q0 &&
-  zs_eqb (classes 0 [] (combine ops (map snd r))) (map ob_class obs).
+Definition check_seq ids next ta tx tj cur qall qsub q0 cut (hops : list (Z * op)) (obs : list stepobs) : bool :=
+  let hs0 := mkHs (nl cur) (init_state ids next) in
+  let qa := map nl qall in
+  let qs := map nl qsub in
+  let r := hrun (nl ta) (nl tx) (nl tj) (map (fun p => (Z.to_N (fst p), snd p)) hops) hs0 in
+  list_eqb zs_eqb (hqueries qa qs hs0) q0 &&
+  check_steps qa qs r obs (map e_id (st_entries (hs_store hs0))) [] q0 cur &&
+  zs_eqb (classes_cut (Z.to_nat cut) (combine (map snd hops) (map snd r))) (map ob_class obs).
 
 Definition tys (names : list string) : list tyitem := map (fun n => mkTy n "") names.
 
@@ -128,7 +147,7 @@ Definition check_emit (e : emitobs) : bool :=
 
 Definition check_case (c : case) : bool :=
   match c with
-  | CSeq ids next ta tx tj queries q0 ops obs => check_seq ids next ta tx tj queries q0 ops obs
+  | CSeq ids next ta tx tj cur qall qsub q0 cut hops obs => check_seq ids next ta tx tj cur qall qsub q0 cut hops obs
   | CEmit e => check_emit e
   end.
 
@@ -139,7 +158,7 @@ Fixpoint snodupb (l : list string) : bool :=
   match l with [] => true | x :: r => negb (memb x r) && snodupb r end.
 Definition premises (c : case) : bool :=
   match c with
-  | CSeq ids next ta tx tj queries q0 ops obs =>
+  | CSeq ids next ta tx tj cur qall qsub q0 cut hops obs =>
       let s0 := init_state ids next in
       znodupb (present (st_entries s0)) &&
       ((settledb (xmi_trav (nl ta) (nl tx)) s0 && settledb (uniq (nl ta) ++ nl tj) s0) || wf_stateb s0)
